@@ -34,6 +34,7 @@ func (e *Engine) resetFor(fi *FuncInfo) {
 	e.madeHere = map[string]bool{}
 	e.baseNames = map[string]Value{}
 	e.selfNames = map[string]Value{}
+	e.dynType = map[string]types.Type{}
 	e.extraStreams = nil
 	e.callN = 0
 	e.nfresh = 0
@@ -262,6 +263,11 @@ func (e *Engine) checkExit(fi *FuncInfo, o Out, sig *types.Signature) {
 		}
 	}
 	env.names = names
+	env.pos = fi.Decl.Body.Rbrace
+	for _, cl := range c.byKind("use", "") {
+		uenv := e.specEnvAt(st, fi.Decl.Body.Rbrace)
+		e.useLemma(cl.Expr, uenv, st, cl.Where)
+	}
 	// parameters keep their entry values in specs (Go parameters are mutable; contracts talk about entry values)
 	for _, kind := range []string{"ensures", "guarantees"} {
 		for j, cl := range c.byKind(kind, "") {
@@ -312,4 +318,15 @@ func (e *Engine) checkExit(fi *FuncInfo, o Out, sig *types.Signature) {
 	}
 }
 
-func (e *Engine) onSend(st *State, ch VStream, n *Term, where string) {}
+// C04 ghost: the value sent as element n can depend only on what this process has received so far
+func (e *Engine) onSend(st *State, ch VStream, n *Term, where string) {
+	bound := mkInt(-1)
+	for _, ids := range sortedKeys(st.readSet) {
+		id := e.idTerms[ids]
+		if id == nil {
+			continue
+		}
+		bound = mkMax(bound, mkApp("hor", SInt, id, mkArith("-", e.consumed(st, id), mkInt(1))))
+	}
+	st.assume(mkCmp("<=", mkApp("hor", SInt, ch.ID, n), bound))
+}
